@@ -76,7 +76,7 @@ impl DataTable {
             for (name, ty) in &self.cols {
                 let class = match ty {
                     Ty::Int => "(-?[0-9]+)",
-                    Ty::Real => "(-?[0-9.]+)",
+                    Ty::Real => "(-?[0-9.]+(?:e-?[0-9]+)?|NaN|-?inf)",
                     Ty::Bool => "(Y)",
                     _ => "([^;]*)",
                 };
